@@ -51,6 +51,7 @@ void* w_HashMap_remove(void* m, void* item)
   HIter it((Item*)item);
   return ((HM*)m)->remove(it).item;
 }
+void w_HashMap_swap(void* a, void* b) { ((HM*)a)->swap(*(HM*)b); }
 void* w_HashMap_find(const void* m, const long* key) { return ((const HM*)m)->find(*key).item; }
 
 // ---------------------------------------------------------------- ghost snapshot
@@ -216,6 +217,41 @@ void h_find()
   NV_POST("HashMap::find: the item carrying the key, end() otherwise", hm_find_post(r));
   if(g_present) { NV_REACH("find.hit"); }
   if(!g_present && chainLen == 2) { NV_REACH("find.miss_after_collisions"); }
+}
+
+// -------------------------------------------------------------- swap(other)
+// each table: empty or with a symbolic first/last item, symbolic size, capacity, bucket array, free
+// list and blocks.  After swap every field has changed owner, the last item points at the new
+// owner's sentinel, and nothing else was written (frame): no item is relocated or copied.
+HM* g_Ma; HM* g_Mb; Item* g_a_first; Item* g_a_last; Item* g_b_first; Item* g_b_last;
+usize g_a_size, g_b_size, g_a_cap, g_b_cap; Item** g_a_data; Item** g_b_data; Item* g_a_free; Item* g_b_free; void* g_a_blocks; void* g_b_blocks;
+void* gv_a_last; void* gv_b_last;
+#define NV_SWAPPED_OK(x, first, last, size, cap, dat, fr, blk) \
+  ((x)->_size == (size) && (x)->capacity == (cap) && (x)->data == (dat) && (x)->freeItem == (fr) && (void*)(x)->blocks == (blk) && \
+   (x)->_end.item == &(x)->endItem && (x)->endItem.prev == (last) && \
+   ((last) ? ((last)->next == &(x)->endItem && (x)->_begin.item == (first)) : (x)->_begin.item == &(x)->endItem))
+bool hm_swap_post()
+{
+  return NV_SWAPPED_OK(g_Ma, g_b_first, g_b_last, g_b_size, g_b_cap, g_b_data, g_b_free, g_b_blocks) &&
+         NV_SWAPPED_OK(g_Mb, g_a_first, g_a_last, g_a_size, g_a_cap, g_a_data, g_a_free, g_a_blocks);
+}
+#define NV_HALF(m, empty, single, size, cap, first, last, dat, fr, blk) \
+  first = last = 0; \
+  if(!(empty)) { last = raw_item(); first = (single) ? last : raw_item(); last->next = &(m)->endItem; } \
+  (m)->endItem.prev = last; (m)->_begin.item = (empty) ? &(m)->endItem : first; (m)->_size = (size); (m)->capacity = (cap); \
+  dat = (m)->data; fr = raw_item(); (m)->freeItem = fr; blk = (void*)new char[8]; *(void**)&(m)->blocks = blk
+void h_swap()
+{
+  NV_INPUT(bool, aEmpty); NV_INPUT(bool, aSingle); NV_INPUT(bool, bEmpty); NV_INPUT(bool, bSingle);
+  NV_INPUT(usize, aSize); NV_INPUT(usize, bSize); NV_INPUT(usize, aCap); NV_INPUT(usize, bCap);
+  HM* a = raw_map(); HM* b = raw_map();
+  NV_HALF(a, aEmpty, aSingle, aSize, aCap, g_a_first, g_a_last, g_a_data, g_a_free, g_a_blocks);
+  NV_HALF(b, bEmpty, bSingle, bSize, bCap, g_b_first, g_b_last, g_b_data, g_b_free, g_b_blocks);
+  g_Ma = a; g_Mb = b; g_a_size = aSize; g_b_size = bSize; g_a_cap = aCap; g_b_cap = bCap; gv_a_last = g_a_last; gv_b_last = g_b_last;
+  w_HashMap_swap(a, b);
+  NV_POST("swap: tables, order lists and pools handed over, sentinels re-anchored, no item written", hm_swap_post());
+  if(aEmpty && !bEmpty) { NV_REACH("swap.empty_with_full"); }
+  if(!aEmpty && !bEmpty && !aSingle) { NV_REACH("swap.full_with_full"); }
 }
 
 #if !defined(NV_HASHSET) && !defined(NV_POOLMAP)
